@@ -482,6 +482,12 @@ func (d *c09driver) step(s *m9sess) bool {
 	switch kind {
 	case "create":
 		line := "CREATE " + quote(name)
+		if t.Choose(4) == 0 {
+			// RFC 9051 6.3.4: a trailing hierarchy separator only declares the intent to create children;
+			// a server that does not need the declaration ignores it: the mailbox meant is still `name`
+			line = "CREATE " + quote(name+"/")
+			d.r.Probe("create-with-trailing-delimiter")
+		}
 		o, _ := d.exec(s, textCmd(d.tag(), line))
 		_, exists := mo.boxes[name]
 		if !d.expectStatus(o, line, !exists) {
